@@ -2,7 +2,7 @@
 import srvprops
 
 PROP = "C06"
-THEOREMS = ["C06_preauth_is_inert", "C06_phase_monotone", "C06_no_reidentify", "C06_conns_wf_reachable", "C06_link_preauth_inert", "C06_link_phase_monotone", "C06_link_closed_is_final", "C06_link_stream_no_act_before_handshake", "C06_link_wrong_or_missing_secret_refused", "C06_undeclared_operation_never_sent"]
+THEOREMS = ["C06_preauth_is_inert", "C06_phase_monotone", "C06_no_reidentify", "C06_conns_wf_reachable", "C06_link_preauth_inert", "C06_link_phase_monotone", "C06_link_closed_is_final", "C06_link_stream_no_act_before_handshake", "C06_link_wrong_or_missing_secret_refused", "C06_undeclared_operation_never_sent", "C06_src_c2s_connecting_unlisted_refused", "C06_src_c2s_connected_unlisted_refused", "C06_src_c2s_authenticated_unlisted_refused", "C06_src_c2s_listed_handled", "C06_src_c2s_preauth_listed_handled", "C06_src_s2m_connecting_unlisted_refused", "C06_src_s2m_authenticated_unlisted_refused", "C06_src_m2s_connecting_unlisted_refused", "C06_src_m2s_authenticated_unlisted_refused", "C06_src_link_listed_handled"]
 
 
 LINK_NOTE = "Modulator-link stage: the real S2M/M2S dispatchers (crates/modulator/src/conn.rs) behind the real connection engine are fed raw byte chunks (handshakes with right/wrong/missing secret and version, the whole three-link vocabulary in each phase, payloads, scripted modulator outcomes) and compared chunk by chunk with Model/Link.v inside coqc (Conf/LinkConf.link_conf); the real S2mClient (crates/modulator/src/client.rs) is run against a scripted wire peer (sensible, contradictory, mis-correlated, malformed, missing replies, dropped links) and each call's result is compared with Model/Link.v's reply mapping (Conf/LinkConf.client_conf); a share of the server histories runs with the real S2M/M2S wire path between server and modulator (unix sockets)."
